@@ -215,7 +215,13 @@ impl Property for C05 {
             prop_oneof![3 => Just(vec![]), 2 => prop::collection::vec(tbf_layer(1.0), 1..3)],
         )
             .prop_map(|(robot, j, k, delta, layers)| Case::Detect { robot, j, k, delta, layers });
-        let cont = (robot_sane(DofChoice::Six), joints_uniform(), prop_oneof![2 => Just((0.0, 0.0)), 1 => (Just(0.0), -1.0..1.0f64), 1 => (-1.0..1.0f64, Just(0.0)), 3 => (-1.0..1.0f64, -1.0..1.0f64)])
+        // J4 / J6 may be wound up beyond a full turn (the recovery must wrap the J4+-J6 sum by as many turns as needed)
+        let cont_joints = (joints_uniform(), prop_oneof![3 => Just((0.0, 0.0)), 2 => (-TWO_PI..TWO_PI, -TWO_PI..TWO_PI), 1 => (-3.0 * PI..3.0 * PI, -3.0 * PI..3.0 * PI)]).prop_map(|(mut j, (w4, w6))| {
+            j[3] += w4;
+            j[5] += w6;
+            j
+        });
+        let cont = (robot_sane(DofChoice::Six), cont_joints, prop_oneof![2 => Just((0.0, 0.0)), 1 => (Just(0.0), -1.0..1.0f64), 1 => (-1.0..1.0f64, Just(0.0)), 3 => (-1.0..1.0f64, -1.0..1.0f64)])
             .prop_map(|(robot, j, (d4, d6))| Case::Continuity { robot, j, d4, d6 });
         prop_oneof![3 => detect, 2 => cont].boxed()
     }
@@ -301,6 +307,9 @@ impl Property for C05 {
                 }
                 if r.signs[3] != r.signs[5] {
                     ctx.class("continuity:mixed J4/J6 signs");
+                }
+                if q[3].abs() > PI || q[5].abs() > PI {
+                    ctx.class("continuity:J4/J6 wound beyond half a turn");
                 }
                 if r.offsets[4] != 0.0 {
                     ctx.class("continuity:J5-offset");
